@@ -393,8 +393,12 @@ fn check_stop(c: &StopCase, rec: &mut CaseRec) -> Verdict {
             replace_stops(s, &c.assign);
         }
     }
-    let lines_p = render_program(&with_stops, c.style);
-    let lines_q = render_program(&replaced, c.style);
+    // Both texts must be identical except for the replaced statement: the renderer's
+    // pseudo-random choices (blanks, redundant parentheses) shift when a statement changes,
+    // and the number of parentheses decides where a runaway DEF recursion is cut off (9.4).
+    let plain = Style { redundant_parens: 0, spacing: 0, case: c.style.case.min(1), question_mark: false, salt: 0 };
+    let lines_p = render_program(&with_stops, plain);
+    let lines_q = render_program(&replaced, plain);
     let assign_text = render_stmts(std::slice::from_ref(&c.assign), Style::PLAIN);
     let mut host = Assigner { line: assign_text.clone(), done: 0 };
     let tp = match load_and_run(&lines_p, c.seed, &c.replies, BUDGET * 2, &mut host) {
